@@ -220,7 +220,8 @@ class Runner:
 def gen_cases(ctx):
     rng = ctx.rng
     cases = []
-    n_main, n_expr, n_err = ctx.scale(150, 3000), ctx.scale(110, 2300), ctx.scale(40, 700)
+    k = float(os.environ.get("C01_SCALE", "1"))     # < 1 shortens a run (used for mutation self-tests on a loaded machine)
+    n_main, n_expr, n_err = int(k * ctx.scale(150, 3000)), int(k * ctx.scale(110, 2300)), int(k * ctx.scale(40, 700))
     for name, prog in witness_programs():
         cases.append(Case("witness", prog, name))
     for _ in range(n_main):
